@@ -34,7 +34,8 @@ LEVEL_NOTE = (
     "delivery advances it ('a failed frame does not advance the counter' is observed behaviourally: a later genuine frame below the "
     "forged counter must still be delivered). Outgoing counters are read from the octets of every frame handed to the interface, whatever the interface then reports (a CommunicationError after transmission does not take the frame back). Before the first delivery of a sender the statement names no reference value: frames "
     "at or below the table's initial value are recorded, not judged. Genuine frames are produced by xknx's own sender "
-    "(DataSecure.outgoing_cemi / SecureData.init_from_plain_apdu), forged ones by bit damage or a wrong key."
+    "(DataSecure.outgoing_cemi / SecureData.init_from_plain_apdu), forged ones by bit damage or a wrong key. Replays / reorders / genuine frames also arrive with bits the MAC does not cover changed (repeat flag, priority, hop count, frame type): the freshness rule is about the counter only."
+    " "
 )
 SHARDS = {"quick": 1, "thorough": 16}
 TIMEOUT = {"quick": 200, "thorough": 2000}
@@ -78,7 +79,39 @@ def _mk_frame(ev, keys):
         b = bytearray(raw)
         b[12:18] = ev["n2"].to_bytes(6, "big")
         raw = bytes(b)
+    raw = _retouch(raw, ev.get("ctl"))
     return raw, bytes(payload.to_knx())
+
+
+def _retouch(raw, ctl):
+    """Change only bits the MAC does not cover (repeat flag, priority, hop count, frame type): the frame stays the same frame."""
+    if not ctl:
+        return raw
+    b = bytearray(raw)
+    if ctl.get("repeat"):
+        b[2] ^= 0x20
+    if ctl.get("ft"):
+        b[2] ^= 0x80
+    if ctl.get("prio") is not None:
+        b[2] = (b[2] & 0xF3) | (ctl["prio"] << 2)
+    if ctl.get("hop") is not None:
+        b[3] = (b[3] & 0x8F) | (ctl["hop"] << 4)
+    return bytes(b)
+
+
+def _ctl(rng, p):
+    if rng.random() >= p:
+        return None
+    ctl = {}
+    if rng.random() < 0.6:
+        ctl["repeat"] = True
+    if rng.random() < 0.3:
+        ctl["prio"] = rng.randrange(4)
+    if rng.random() < 0.3:
+        ctl["hop"] = rng.randrange(8)
+    if rng.random() < 0.2:
+        ctl["ft"] = True
+    return ctl or {"repeat": True}
 
 
 class _Rng:
@@ -127,6 +160,10 @@ def _history(rng):
             ev["tag"] = "genuine"
         elif r < 0.55:
             ev = dict(rng.choice(sent), tag="replay")
+            # mostly the last frame this receiver may have accepted, and with unprotected bits changed on the way
+            if rng.random() < 0.5:
+                ev = dict(sent[-1], tag="replay")
+            ev["ctl"] = _ctl(rng, 0.7)
         elif r < 0.65:
             # reordered: a counter below the newest one of this sender (never sent before)
             ev["n"] = max(0, nxt[sa] - rng.randrange(2, 6))
@@ -148,6 +185,10 @@ def _history(rng):
             ev["tag"] = "arbitrary"
         if ev["via"] == "outgoing" and ev["n"] == 0:
             ev["via"] = "api"
+        if "ctl" not in ev:
+            ev["ctl"] = _ctl(rng, 0.7 if ev["tag"] == "reorder" else 0.25)
+        if ev["how"] == "garbage":
+            ev["ctl"] = None
         events.append(ev)
         if ev["how"] == "genuine":
             sent.append({k: v for k, v in ev.items() if k != "tag"})
@@ -175,6 +216,12 @@ def _run_history(ctx, hist):
         out = rx.feed(raw)
         ctx.ev()
         ctx.count("events_" + ev["tag"])
+        if ev.get("ctl"):
+            ctx.count("events_with_unprotected_bits_changed")
+            if ev["tag"] == "replay":
+                ctx.count("replays_with_unprotected_bits_changed")
+                if ev["ctl"].get("repeat"):
+                    ctx.count("replays_with_repeat_flag_toggled")
         got = len(out.delivered)
         wit = {"history": hist, "event_index": i, "event": ev, "raw": raw, "outcome": out.kind(),
                "model_last_delivered": last_delivered.get(sa), "initial": initial.get(sa)}
@@ -443,7 +490,7 @@ def run(ctx):
         "frames that reached the interface must be strictly increasing"
     )
     ctx.require("histories", "events_genuine", "events_replay", "events_reorder", "events_forged", "events_arbitrary", "delivered",
-                "forged_rejected", "stale_rejected", "garbage_secured_apdu_len_0", "garbage_secured_apdu_len_1", "garbage_secured_apdu_len_-1", "unknown_sender_rejected", "outgoing_runs", "outgoing_frames", "exhaustion_errors",
+                "forged_rejected", "stale_rejected", "replays_with_unprotected_bits_changed", "replays_with_repeat_flag_toggled", "garbage_secured_apdu_len_0", "garbage_secured_apdu_len_1", "garbage_secured_apdu_len_-1", "unknown_sender_rejected", "outgoing_runs", "outgoing_frames", "exhaustion_errors",
                 "outgoing_frames_accepted_by_receiver", "wire_runs", "wire_secured_frames", "wire_outcome_ok", "wire_outcome_slow",
                 "wire_outcome_fail_after", "wire_outcome_noconf", "wire_exhaustion_errors", "wire_runs_reaching_last_counter")
     loop = new_loop()
